@@ -106,7 +106,13 @@ pub fn expr_into_metadatum(
 pub fn expr_into_utxo_refs(expr: &tir::Expression) -> Result<Vec<UtxoRef>, Error> {
     match expr {
         tir::Expression::UtxoRefs(x) => Ok(x.clone()),
-        tir::Expression::UtxoSet(x) => Ok(x.iter().map(|x| x.r#ref.clone()).collect()),
+        tir::Expression::UtxoSet(x) => {
+            // a set has no order of its own, list the refs in a fixed one so that compiling
+            // the same template always yields the same transaction
+            let mut refs: Vec<UtxoRef> = x.iter().map(|x| x.r#ref.clone()).collect();
+            refs.sort_by(|a, b| (&a.txid, a.index).cmp(&(&b.txid, b.index)));
+            Ok(refs)
+        }
         tir::Expression::String(x) => {
             let invalid = || Error::CoerceError(x.clone(), "UtxoRef (txid#index)".to_string());
             let (raw_txid, raw_output_ix) = x.split_once("#").ok_or_else(invalid)?;
